@@ -1212,6 +1212,52 @@ def first_decided(cfgd, comp, nb):
     return None
 
 
+# =============================================================================== C10
+def mon_c10(ix: Index):  # noqa: C901
+    out = []
+    n = 0
+    done: dict[str, int] = {}  # context id -> seq of its completion record
+    seen_ops: set[str] = set()
+    for a in ix.applied:
+        u = a.get("u")
+        if not u or u.get("Type") == "EXECUTION":
+            continue
+        oid = u["Id"]
+        anc_done = [x for x in ix.ancestors(oid) if x in done]
+        if anc_done:
+            first_time = oid not in seen_ops
+            rcflag = False
+            ctxp = ix.id2path.get(anc_done[0], "?")
+            out.append(V("C10", "C10/update-after-ancestor-completed/%s/%s-%s" % ("first-time-operation" if first_time else "existing-operation", u["Type"], u["Action"]),
+                         "%s %s for %s applied after its ancestor context %s had completed" % (u["Type"], u["Action"], ix.id2path.get(oid), ctxp), a["seq"]))
+        seen_ops.add(oid)
+        if u.get("Type") == "CONTEXT" and u.get("Action") in ("SUCCEED", "FAIL"):
+            done[oid] = a["seq"]
+            n += 1
+    # user functions entered in orphaned branches after the ancestor's completion was applied
+    lastcall: dict[tuple, dict] = {}
+    for e in ix.trace:
+        if e["kind"] == "call":
+            lastcall[(e.get("t"), e["path"])] = e
+        elif e["kind"] == "fn_enter" and e.get("fnkind") in ("step", "check", "submitter"):
+            base = e["path"].split("@")[0]
+            c = lastcall.get((e.get("t"), base)) or lastcall.get((e.get("t"), e["path"]))
+            if c is None or c["inv"] != e["inv"]:
+                continue
+            # ancestors by structural path
+            p = ctx_path(e["path"])
+            while p is not None:
+                aid = ix.path2id.get(p)
+                if aid in done and done[aid] <= c.get("aseq", -1) and any(a2["seq"] == done[aid] and a2["inv"] == e["inv"] for a2 in ix.applied):
+                    out.append(V("C10", "C10/function-entered-in-orphaned-branch/%s" % e.get("fnkind"),
+                                 "%s function at %s entered although its call was issued after ancestor %s completed" % (e["fnkind"], e["path"], p), e["i"]))
+                    break
+                p = ctx_path(p)
+    ix.r.setdefault("stats", {})["c10_context_completions"] = n
+    ix.r["stats"]["c10_orphan_aborts"] = sum(1 for e in ix.trace if e["kind"] == "abort" and e.get("cls") == "OrphanedChildException")
+    return out
+
+
 MONITORS = {
     "C01": mon_c01,
     "C02": mon_c02,
@@ -1220,6 +1266,7 @@ MONITORS = {
     "C06": mon_c06,
     "C08": mon_c08,
     "C09": mon_c09,
+    "C10": mon_c10,
     "C11": mon_c11,
     "C12": mon_c12,
     "C13": mon_c13,
